@@ -144,9 +144,8 @@ def TNode.attr : TNode → Attr | .mk _ a _ => a
 def TNode.children : TNode → List TNode | .mk _ _ c => c
 def TNode.isDir (t : TNode) : Bool := isDirMode t.attr.mode
 
-inductive Err where
-  | exist | notdir | noent | mlink | inval | perm | loop | tooMany
-  deriving DecidableEq, Repr, Inhabited
+/-! Failure is `none`: every error of the scan path makes the tool exit with failure and nothing else about it is
+observable (the errno only selects the message), so errors are not distinguished.  Comments name the C error. -/
 
 structure Defaults where
   uid : Nat
@@ -190,14 +189,14 @@ def mknodeAttr (ent : Ent) (extra : Extra) : Attr :=
     extra := if isReg || isLnk then extra else .none }
 
 /-- tail of `mknode`: `EMLINK` check, `insert_sorted(parent, n)`, `parent->link_count++` -/
-def linkChild (parent : TNode) (n : TNode) : Except Err TNode :=
+def linkChild (parent : TNode) (n : TNode) : Option TNode :=
   match parent with
   | .mk pn pa pc =>
-    if pa.linkCount = 0xFFFFFFFF then .error .mlink
-    else .ok (.mk pn { pa with linkCount := pa.linkCount + 1 } (insertSorted n pc))
+    if pa.linkCount = 0xFFFFFFFF then none /- EMLINK -/
+    else some (.mk pn { pa with linkCount := pa.linkCount + 1 } (insertSorted n pc))
 
 /-- `mknode` for a leaf: create the node and link it into `parent` -/
-def mknode (parent : TNode) (name : Name) (ent : Ent) (extra : Extra) : Except Err TNode :=
+def mknode (parent : TNode) (name : Name) (ent : Ent) (extra : Extra) : Option TNode :=
   linkChild parent (.mk name (mknodeAttr ent extra) [])
 
 /-- the entry `fstree_get_node_by_path` fabricates for an implicitly created directory -/
@@ -206,38 +205,38 @@ def implicitEnt (d : Defaults) : Ent :=
     dev := 0, ino := 0, rdev := 0, mount := false, hard := false }
 
 /-- the `child != NULL` branch of `fstree_add_generic` -/
-def overwrite (c : TNode) (ent : Ent) : Except Err TNode :=
+def overwrite (c : TNode) (ent : Ent) : Option TNode :=
   let .mk n a cs := c
-  if !isDirMode a.mode || !isDirMode ent.mode || !a.implicit then .error .exist
-  else .ok (.mk n { a with uid := ent.uid % 4294967296, gid := ent.gid % 4294967296, mode := ent.mode % 65536,
-                           modTime := (ent.mtime % 4294967296).toNat, implicit := false } cs)
+  if !isDirMode a.mode || !isDirMode ent.mode || !a.implicit then none /- EEXIST -/
+  else some (.mk n { a with uid := ent.uid % 4294967296, gid := ent.gid % 4294967296, mode := ent.mode % 65536,
+                             modTime := (ent.mtime % 4294967296).toNat, implicit := false } cs)
 
 /-- `fstree_add_generic` = `fstree_get_node_by_path(…, create_implicitly = true, stop_at_parent = true)` followed by
 `child_by_name` and either the overwrite branch or `mknode`; written as one descent that rebuilds the spine.
 An implicitly created parent is a fresh childless node, so the descent continues into it before it is linked into
 its own parent — the resulting tree is the same as linking first and descending afterwards. -/
-def addPath (d : Defaults) (ent : Ent) (extra : Extra) : Path → TNode → Except Err TNode
+def addPath (d : Defaults) (ent : Ent) (extra : Extra) : Path → TNode → Option TNode
   | [], root => overwrite root ent                      -- `ent->name[0] == '\0'`: child = fs->root
   | [n], dir =>
-      if !dir.isDir then .error .notdir
+      if !dir.isDir then none /- ENOTDIR -/
       else match childByName dir.children n with
         | some c =>
             match overwrite c ent with
-            | .error e => .error e
-            | .ok c' => .ok (.mk dir.name dir.attr (replaceChild c' dir.children))
+            | none => none
+            | some c' => some (.mk dir.name dir.attr (replaceChild c' dir.children))
         | none => mknode dir n ent extra
   | n :: rest, dir =>
-      if !dir.isDir then .error .notdir
+      if !dir.isDir then none /- ENOTDIR -/
       else match childByName dir.children n with
         | some c =>
             match addPath d ent extra rest c with
-            | .error e => .error e
-            | .ok c' => .ok (.mk dir.name dir.attr (replaceChild c' dir.children))
+            | none => none
+            | some c' => some (.mk dir.name dir.attr (replaceChild c' dir.children))
         | none =>
             let fresh := TNode.mk n { mknodeAttr (implicitEnt d) .none with implicit := true } []
             match addPath d ent extra rest fresh with
-            | .error e => .error e
-            | .ok c' => linkChild dir c'
+            | none => none
+            | some c' => linkChild dir c'
 
 /-- `fstree_get_node_by_path(fs, root, path, false, false)` -/
 def lookup : TNode → Path → Option TNode
@@ -298,9 +297,8 @@ def dotName : Name := [0x2e]
 def dotDotName : Name := [0x2e, 0x2e]
 
 /-- `dir_unix.c: dir_next` + `dir_rec.c: expand_path` -/
-def nativeEntry (rel : Path) (dirDev : Nat) (h : HNode) : Ent :=
-  let s := h.st
-  { rel := rel ++ [h.name], path := rel ++ [h.name], mode := s.mode, uid := s.uid, gid := s.gid, mtime := s.mtime,
+def nativeEntry (rel : Path) (dirDev : Nat) (name : Name) (s : Stat) : Ent :=
+  { rel := rel ++ [name], path := rel ++ [name], mode := s.mode, uid := s.uid, gid := s.gid, mtime := s.mtime,
     dev := s.dev, ino := s.ino, rdev := s.rdev, mount := s.dev != dirDev, hard := false }
 
 /-- `dir_hl.c: next` — returns the entry, the link target (if detected) and the new `inumtree` -/
@@ -352,57 +350,76 @@ def treeIterStep (cfg : Cfg) (fnm : Fnm) (e : Ent) : Option Ent × Bool :=
             else fnm pat (e'.path.getLast?.getD []) false
           if ok then (some e', recurse) else (none, recurse)
 
-/-- body of the loop of `scan_directory` for one entry; `tgt` is what `dir->read_link` returns.
+/-- the `extra` string `scan_directory` hands to `fstree_add_generic`: link target (`dir->read_link`: the hard-link
+filter's target if it detected one, else `readlinkat`), or the input path of a regular file when a prefix is in use -/
+def scanExtra (cfg : Cfg) (e : Ent) (hlTarget : Option Path) (symTarget : List UInt8) : Extra :=
+  if isType e.mode sIFLNK then
+    match hlTarget with
+    | some t => .link t none
+    | none => .str symTarget
+  else if isType e.mode sIFREG && (!cfg.pfx.isEmpty || cfg.filePrefix.isSome) then
+    match cfg.filePrefix with
+    | none => .str (joinPath e.rel)
+    | some fp => .str (fp ++ slash :: joinPath e.rel)
+  else .none
+
+/-- body of the loop of `scan_directory` for one entry.
 Result: new tree/links and whether `ignore_subdir` was called. -/
 def scanStep (d : Defaults) (cfg : Cfg) (e : Ent) (hlTarget : Option Path) (symTarget : List UInt8)
-    (tree : TNode) (links : List Path) : Except Err (TNode × List Path × Bool) :=
+    (tree : TNode) (links : List Path) : Option (TNode × List Path × Bool) :=
   match parentOf tree e.path with
-  | none => .ok (tree, links, isDirMode e.mode)                  -- parent missing: entry dropped
+  | none => some (tree, links, isDirMode e.mode)                  -- parent missing: entry dropped
   | some _ =>
-    let extra : Extra :=
-      if isType e.mode sIFLNK then
-        match hlTarget with
-        | some t => .link t none
-        | none => .str symTarget
-      else if isType e.mode sIFREG && (!cfg.pfx.isEmpty || cfg.filePrefix.isSome) then
-        match cfg.filePrefix with
-        | none => .str (joinPath e.rel)
-        | some fp => .str (fp ++ slash :: joinPath e.rel)
-      else .none
-    match addPath d e extra e.path tree with
-    | .error err => .error err
-    | .ok tree' => .ok (tree', if e.hard then e.path :: links else links, false)
+    match addPath d e (scanExtra cfg e hlTarget symTarget) e.path tree with
+    | none => none
+    | some tree' => some (tree', if e.hard then e.path :: links else links, false)
+
+/-- what the three iterator layers below `scan_directory` compute for one raw directory entry -/
+structure IterOut where
+  /-- entry delivered to `scan_directory` (none: filtered out) -/
+  out : Option Ent
+  /-- the recursive iterator will descend into it (unless `scan_directory` calls `ignore_subdir`) -/
+  recurse : Bool
+  /-- `link_target` of the hard-link filter -/
+  hlTarget : Option Path
+  seen : List ((Nat × Nat) × Path)
+
+/-- `dir_rec.c: next` (after the "."/".." test) → `dir_hl.c: next` (unless DIR_SCAN_NO_HARDLINKS) →
+`dir_tree_iterator.c: next` -/
+def iterStep (cfg : Cfg) (fnm : Fnm) (rel : Path) (dirDev : Nat) (seen : List ((Nat × Nat) × Path)) (name : Name)
+    (s : Stat) : IterOut :=
+  let e0 := nativeEntry rel dirDev name s
+  let hl := if hasFlag cfg.flags dirScanNoHardlinks then (e0, none, seen) else hlNext seen e0
+  let ti := treeIterStep cfg fnm hl.1
+  { out := ti.1, recurse := ti.2, hlTarget := hl.2.1, seen := hl.2.2 }
 
 mutual
 /-- one entry of the directory being read by the native iterator at the top of `dir_rec.c`'s stack, pushed through
 `dir_rec.c: next`, `dir_hl.c: next`, `dir_tree_iterator.c: next` and the body of `scan_directory`; then, if the
 sub-directory was not ignored, everything below it (DFS, pre-order) -/
-def walkNode (d : Defaults) (cfg : Cfg) (fnm : Fnm) (rel : Path) (dirDev : Nat) (h : HNode) (st : St) : Except Err St :=
+def walkNode (d : Defaults) (cfg : Cfg) (fnm : Fnm) (rel : Path) (dirDev : Nat) (h : HNode) (st : St) : Option St :=
   match h with
   | .mk name s target children =>
-    if name = dotName || name = dotDotName then .ok st            -- dir_rec.c: "." and ".." are skipped
+    if name = dotName || name = dotDotName then some st            -- dir_rec.c: "." and ".." are skipped
     else
-      let e0 := nativeEntry rel dirDev (.mk name s target [])
-      let (e1, hlT, seen') :=
-        if hasFlag cfg.flags dirScanNoHardlinks then (e0, none, st.seen) else hlNext st.seen e0
-      let (out, rec1) := treeIterStep cfg fnm e1
-      let r : Except Err (TNode × List Path × Bool) :=
-        match out with
-        | none => .ok (st.tree, st.links, false)
-        | some e2 => scanStep d cfg e2 hlT target st.tree st.links
+      let it := iterStep cfg fnm rel dirDev st.seen name s
+      let r : Option (TNode × List Path × Bool) :=
+        match it.out with
+        | none => some (st.tree, st.links, false)
+        | some e2 => scanStep d cfg e2 it.hlTarget target st.tree st.links
       match r with
-      | .error err => .error err
-      | .ok (tree', links', ignored) =>
-        let st' : St := { seen := seen', tree := tree', links := links' }
-        if isDirMode s.mode && rec1 && !ignored then walkList d cfg fnm (rel ++ [name]) s.dev children st'
-        else .ok st'
-def walkList (d : Defaults) (cfg : Cfg) (fnm : Fnm) (rel : Path) (dirDev : Nat) (l : List HNode) (st : St) : Except Err St :=
+      | none => none
+      | some (tree', links', ignored) =>
+        let st' : St := { seen := it.seen, tree := tree', links := links' }
+        if isDirMode s.mode && it.recurse && !ignored then walkList d cfg fnm (rel ++ [name]) s.dev children st'
+        else some st'
+def walkList (d : Defaults) (cfg : Cfg) (fnm : Fnm) (rel : Path) (dirDev : Nat) (l : List HNode) (st : St) : Option St :=
   match l with
-  | [] => .ok st
+  | [] => some st
   | h :: hs =>
     match walkNode d cfg fnm rel dirDev h st with
-    | .error err => .error err
-    | .ok st' => walkList d cfg fnm rel dirDev hs st'
+    | none => none
+    | some st' => walkList d cfg fnm rel dirDev hs st'
 end
 
 /-! ## `fstree_post_process` -/
@@ -418,22 +435,22 @@ def modifyAt (f : TNode → TNode) : Path → TNode → TNode
 def TNode.isHardLink (t : TNode) : Bool := isType t.attr.mode sIFLNK && t.attr.hard
 
 /-- `resolve_link`: follow the chain starting at the node at `start`.  Returns the path of the final node. -/
-def followLink (root : TNode) (start : Path) : Nat → Path → Except Err Path
-  | 0, _ => .error .loop
+def followLink (root : TNode) (start : Path) : Nat → Path → Option Path
+  | 0, _ => none /- does not terminate (D12) -/
   | fuel + 1, cur =>
       match lookup root cur with
-      | none => .error .noent
+      | none => none /- ENOENT -/
       | some node =>
-        if !node.isHardLink then .ok cur
+        if !node.isHardLink then some cur
         else
-          let next : Except Err Path :=
+          let next : Option Path :=
             match node.attr.extra with
-            | .link _ (some r) => .ok r
-            | .link t none => (match lookup root t with | some _ => .ok t | none => .error .noent)
-            | _ => .error .inval
+            | .link _ (some r) => some r
+            | .link t none => (match lookup root t with | some _ => some t | none => none /- ENOENT -/)
+            | _ => none /- EINVAL -/
           match next with
-          | .error e => .error e
-          | .ok nx => if nx = start then .error .mlink else followLink root start fuel nx
+          | none => none
+          | some nx => if nx = start then none /- EMLINK -/ else followLink root start fuel nx
 
 def setResolved (tgt : Path) (t : TNode) : TNode :=
   match t with
@@ -446,24 +463,24 @@ def bumpLinkCount (t : TNode) : TNode :=
   | .mk n a cs => .mk n { a with linkCount := a.linkCount + 1 } cs
 
 /-- `resolve_link` for the link node at `p` -/
-def resolveLink (root : TNode) (fuel : Nat) (p : Path) : Except Err TNode :=
+def resolveLink (root : TNode) (fuel : Nat) (p : Path) : Option TNode :=
   match followLink root p fuel p with
-  | .error e => .error e
-  | .ok tp =>
+  | none => none
+  | some tp =>
     match lookup root tp with
-    | none => .error .noent
+    | none => none /- ENOENT -/
     | some tn =>
-      if tn.isDir then .error .perm
-      else if tn.attr.linkCount = 0xFFFFFFFF then .error .mlink
-      else .ok (modifyAt bumpLinkCount tp (modifyAt (setResolved tp) p root))
+      if tn.isDir then none /- EPERM -/
+      else if tn.attr.linkCount = 0xFFFFFFFF then none /- EMLINK -/
+      else some (modifyAt bumpLinkCount tp (modifyAt (setResolved tp) p root))
 
 /-- `fstree_resolve_hard_links`: pop `links_unresolved` until empty -/
-def resolveHardLinks (fuel : Nat) : List Path → TNode → Except Err TNode
-  | [], t => .ok t
+def resolveHardLinks (fuel : Nat) : List Path → TNode → Option TNode
+  | [], t => some t
   | p :: rest, t =>
       match resolveLink t fuel p with
-      | .error e => .error e
-      | .ok t' => resolveHardLinks fuel rest t'
+      | none => none
+      | some t' => resolveHardLinks fuel rest t'
 
 mutual
 /-- `alloc_inode_num_dfs`: the nodes below `t` in the order in which they receive their numbers: first the whole
@@ -543,13 +560,13 @@ structure Result where
   deriving Repr, Inhabited
 
 /-- `fstree_post_process` given the tree and `links_unresolved` -/
-def postProcess (tree : TNode) (links : List Path) : Except Err Result :=
+def postProcess (tree : TNode) (links : List Path) : Option Result :=
   match resolveHardLinks (links.length + 2) links tree with
-  | .error e => .error e
-  | .ok t =>
+  | none => none
+  | some t =>
     let arr := allocOrder t
-    if arr.length > 0xFFFFFFFF then .error .tooMany
-    else .ok { tree := t, inodes := reorderHardLinks t arr, files := fileListNode [] t }
+    if arr.length > 0xFFFFFFFF then none /- too many inodes -/
+    else some { tree := t, inodes := reorderHardLinks t arr, files := fileListNode [] t }
 
 /-- `fstree_init`: the root node -/
 def initRoot (d : Defaults) : TNode :=
@@ -559,44 +576,44 @@ def initRoot (d : Defaults) : TNode :=
 /-- `dir_tree_iterator_create(path, cfg)` + `scan_directory` on an existing tree (a `glob` line, or `--pack-dir` with
 `tree = initRoot`) -/
 def scanInto (sorted : Bool) (d : Defaults) (cfg : Cfg) (fnm : Fnm) (rootDev : Nat) (forest : List HNode)
-    (tree : TNode) (links : List Path) : Except Err (TNode × List Path) :=
+    (tree : TNode) (links : List Path) : Option (TNode × List Path) :=
   match walkList d cfg fnm [] rootDev (nativeOrder sorted forest) { seen := [], tree := tree, links := links } with
-  | .error e => .error e
-  | .ok st => .ok (st.tree, st.links)
+  | none => none
+  | some st => some (st.tree, st.links)
 
 /-- `fstree_get_node_by_path(fs, fs->root, path, create_implicitly = true, stop_at_parent = false)` as `glob_files`
 uses it to fetch the target directory of a `glob` line -/
-def mkdirImplicit (d : Defaults) : Path → TNode → Except Err TNode
-  | [], t => .ok t
+def mkdirImplicit (d : Defaults) : Path → TNode → Option TNode
+  | [], t => some t
   | n :: rest, dir =>
-      if !dir.isDir then .error .notdir
+      if !dir.isDir then none /- ENOTDIR -/
       else match childByName dir.children n with
         | some c =>
             match mkdirImplicit d rest c with
-            | .error e => .error e
-            | .ok c' => .ok (.mk dir.name dir.attr (replaceChild c' dir.children))
+            | none => none
+            | some c' => some (.mk dir.name dir.attr (replaceChild c' dir.children))
         | none =>
             let fresh := TNode.mk n { mknodeAttr (implicitEnt d) .none with implicit := true } []
             match mkdirImplicit d rest fresh with
-            | .error e => .error e
-            | .ok c' => linkChild dir c'
+            | none => none
+            | some c' => linkChild dir c'
 
 /-- `glob_files`: fetch (or implicitly create) the target directory, which becomes `cfg.prefix`, then scan.
 The caller passes `cfg` with `pfx = target`. -/
 def globInto (sorted : Bool) (d : Defaults) (cfg : Cfg) (fnm : Fnm) (rootDev : Nat) (forest : List HNode)
-    (target : Path) (tree : TNode) (links : List Path) : Except Err (TNode × List Path) :=
+    (target : Path) (tree : TNode) (links : List Path) : Option (TNode × List Path) :=
   match mkdirImplicit d target tree with
-  | .error e => .error e
-  | .ok t1 =>
+  | none => none
+  | some t1 =>
     match lookup t1 target with
-    | none => .error .noent
-    | some r => if !r.isDir then .error .notdir else scanInto sorted d cfg fnm rootDev forest t1 links
+    | none => none /- ENOENT -/
+    | some r => if !r.isDir then none /- ENOTDIR -/ else scanInto sorted d cfg fnm rootDev forest t1 links
 
 /-- `gensquashfs --pack-dir`: scan + post-process -/
 def packDir (sorted : Bool) (d : Defaults) (cfg : Cfg) (fnm : Fnm) (rootDev : Nat) (forest : List HNode) :
-    Except Err Result :=
+    Option Result :=
   match scanInto sorted d cfg fnm rootDev forest (initRoot d) [] with
-  | .error e => .error e
-  | .ok (t, links) => postProcess t links
+  | none => none
+  | some (t, links) => postProcess t links
 
 end Sqfs.FsTree
